@@ -130,10 +130,21 @@ def h_twolevel():
     return lsl.GraphBuilder().add(c).build_model(), spec, ["a", "b", "c"]
 
 
-FAMILY = {"direct": h_direct, "direct, built with copy=True": h_direct_copy, "uniform root": h_uniform, "int-typed current value": h_intarray, "user-named dist nodes": h_named, "via-calc": h_calc, "diamond": h_diamond, "per_obs=False": h_perobs, "two-level+matrix": h_twolevel}
+def h_derived_root():
+    """the root's scale is itself derived from a hyper-parameter (sd = 2 tau + 1): stale if simulate() is entered with pending updates"""
+    import liesel.model as lsl
+    h = _hp(tau=1.5, y_scale=0.5)
+    sd = lsl.Var(lsl.Calc(lambda t: 2.0 * t + 1.0, h["tau"]), name="sd")
+    beta = lsl.Var(jnp.zeros(2), lsl.Dist(tfd().Normal, loc=0.0, scale=sd), name="beta")
+    y = lsl.Var(jnp.zeros(2), lsl.Dist(tfd().Normal, loc=beta, scale=h["y_scale"]), name="y")
+    spec = {"beta": ((2,), lambda v: 0, lambda v: 2 * v["tau"] + 1), "y": ((2,), lambda v: v["beta"], lambda v: v["y_scale"])}
+    return lsl.GraphBuilder().add(y).build_model(), spec, ["beta", "y"]
 
 
-def scenario(chk, hname, auto, skip):
+FAMILY = {"root with a derived scale": h_derived_root, "direct": h_direct, "direct, built with copy=True": h_direct_copy, "uniform root": h_uniform, "int-typed current value": h_intarray, "user-named dist nodes": h_named, "via-calc": h_calc, "diamond": h_diamond, "per_obs=False": h_perobs, "two-level+matrix": h_twolevel}
+
+
+def scenario(chk, hname, auto, skip, stale=False):
     import liesel.model as lsl
     from liesel.model.nodes import Calc, Dist, Value
     model, spec, order = FAMILY[hname]()
@@ -145,11 +156,16 @@ def scenario(chk, hname, auto, skip):
 
     def f(seed, st):
         # start from a coherent model state: strong values are free, everything derived is recomputed
+        if stale:
+            # simulate() is entered with pending updates (inputs assigned while auto-update was off, the setting restored afterwards): the
+            # derived nodes still hold the values of the build-time state and are flagged outdated
+            model.state = full0
         for k in strong:
             model.nodes[k]._value = st[k]
         for n in model.nodes.values():
             n._outdated = n.name not in strong
-        model.update()
+        if not stale:
+            model.update()
         model.simulate(seed, skip=skip)
         model.update()
         out = {k: v.value for k, v in model.state.items() if v.value is not None}
@@ -167,7 +183,7 @@ def scenario(chk, hname, auto, skip):
         flags = {k: jnp.asarray(v.outdated) for k, v in model.state.items()}
         return dict(out=out, ref=ref)
     key = jax.random.PRNGKey(17)
-    tag = f"{hname}|auto={auto}|skip={','.join(skip) or '-'}"
+    tag = f"{hname}|auto={auto}|skip={','.join(skip) or '-'}" + ("|entered with pending updates" if stale else "")
     pref = "".join(ch for ch in tag if ch.isalnum())
     sst = symlike(st0, pref)
     for k in list(sst):            # literal hyper-parameters (auto-named nodes) stay concrete
@@ -246,7 +262,9 @@ def main():
     if chk.tier == "quick":
         plan = [("direct", True, ()), ("via-calc", False, ()), ("via-calc", True, ()), ("diamond", False, ()), ("diamond", True, ("m",)),
                 ("per_obs=False", False, ()), ("two-level+matrix", False, ("a",)), ("direct", False, ("mu_log_prob",)), ("via-calc", False, ("y_var_value",)),
-                ("user-named dist nodes", True, ("mu_prior",)), ("user-named dist nodes", False, ("lik",)), ("uniform root", False, ()), ("uniform root", True, ("y",)), ("int-typed current value", False, ()), ("direct, built with copy=True", True, ())]
+                ("user-named dist nodes", True, ("mu_prior",)), ("user-named dist nodes", False, ("lik",)), ("uniform root", False, ()), ("uniform root", True, ("y",)), ("int-typed current value", False, ()), ("direct, built with copy=True", True, ()),
+                ("via-calc", True, (), True), ("diamond", True, ("m",), True), ("two-level+matrix", False, (), True),
+                ("root with a derived scale", True, (), True), ("root with a derived scale", False, (), True), ("root with a derived scale", True, ("y",), True), ("root with a derived scale", True, ())]
     else:
         plan = []
         for h in FAMILY:
@@ -257,9 +275,10 @@ def main():
             for auto in (True, False):
                 for sk in skips:
                     plan.append((h, auto, sk))
+                plan.append((h, auto, (), True))
     obs = []
-    for h, auto, skip in plan:
-        enc, spec, order, sst, tag = scenario(chk, h, auto, skip)
+    for h, auto, skip, *stale in plan:
+        enc, spec, order, sst, tag = scenario(chk, h, auto, skip, bool(stale))
         structural(chk, enc, spec, sst, tag, skip)
         obs += obligations(enc, spec, order, sst, tag, skip)
         chk.validated_points += enc.validate(chk.rng, npoints=1)
@@ -267,7 +286,7 @@ def main():
     chk.functions += ["liesel.model.model.Model.simulate", "liesel.model.model.Model.update", "liesel.model.nodes.Dist.init_dist / update", "liesel.model.nodes.Value.value setter / flag_outdated",
                       "tfd.Normal.sample (traced; jax.random.normal stubbed per key term)"]
     chk.bounds += ["all current node values symbolic reals; shapes (), (2,), (3,), (2,2)", "one simulate() call followed by one update()"]
-    chk.enumerated += [f"{h} auto_update={a} skip={list(s)}" for h, a, s in plan]
+    chk.enumerated += [f"{h} auto_update={a} skip={list(s)}" + (" entered with pending updates" if st else "") for h, a, s, *st in plan]
     chk.assume("location-scale (Normal) families so that a draw is an explicit function of the sampler's standard normal output", "ideal PRNG: draws memoised by key term; distinct terms are independent draws",
                "real arithmetic", "the from-scratch reference is Model.update() on a second, independently built model with all nodes flagged outdated (its correctness is C01's subject)")
     return chk.finish(technique=TECH)
